@@ -51,6 +51,10 @@ CHECKS = {
    technique="bounded-exhaustive enumeration of deletion / null subsets of record-field positions x key orders x injected unknown fields x 4 reader kinds on generated bindings, against an independently computed missing-path set",
    text="For every schema with nested records (records inside arrays, maps, unions, includes; plus flat representatives) the fully populated value is encoded by the reference encoders with every subset of field positions removed (all 2^n for n<=8, every subset of size<=3 beyond; deeper in thorough), also as JSON null, in three key orders and with unknown primitive/object/array fields at three positions, then decoded by the JSON, ROR2, query-parameter and untyped-value readers of both generations. The single MissingRequiredFieldsError must list exactly the sorted full paths of the absent required fields, nothing when none is missing, and the returned value must hold every present field; malformed leaves must raise a DeserializationError scoped at the leaf.",
    note=CODEC_NOTE + " The lenient-client clause is covered at wire level."),
+ "C11": dict(engine="enumx", category="model_checking", design="§3 C11",
+   technique="exhaustive enumeration of constraint-satisfying and constraint-violating values and documents (all member subsets of 5 unions, all payload lengths around 3 fixed sizes, all constants/symbol strings of 2 enums, every assignment of a subset of {delete,set,nested patch} to each field of 4 records x 3 exclusion specs) executed on bindings generated at check time; oracle = the statement's legality predicate + reference patch document",
+   text="On bindings generated at check time for both generations from a dedicated 'constraints' universe: every subset of members of unions with 1/2/4 members (nullable and not) is set and encoded (JSON, ROR2) and the equivalent 0/1/2-member and unknown-member documents decoded: an error exactly when the cardinality rule is broken; fixed sizes 1/2/16 x payload lengths 0..size+2 decode with an error exactly when the length differs; enum constants -1..n+1 encode only when declared, and declared/unknown/wrong-case/padded/numeric symbol strings decode to their constant or to the unknown value which refuses to re-encode; for 4 records (required/optional/defaulted fields, nested record, included record) every assignment of a subset of {delete, set, nested patch} per field (nested patches: family in quick, all in thorough) x 3 exclusion specs is built as a Go value through the canonical struct locations and as the reference {patch:{$set,$delete,<field>:{...}}} document: encode / decode must fail exactly for illegal ones (set+delete, set+patch, delete+patch, delete of required, touching excluded) and legal ones must emit the reference document and decode back to the same patch; every exported delete flag reachable through embedded structs must be honoured.",
+   note=CODEC_NOTE + " Unknown member keys in nullable unions are not judged. Custom typerefs are not in the universe."),
  "C13": dict(engine="enumx", category="model_checking", design="§3 C13",
    technique="bounded-exhaustive enumeration of (default-bearing schema, subset of defaulted positions supplied/omitted, reader) on bindings generated at check time; oracle = reference parse of the schema literal; in-place mutation aliasing check over all maker pairs",
    text="A dedicated universe declares 63 (field type, default literal) pairs (extremes, escapes, empty and nested containers, records with own defaults, every union member and enum symbol, fixed, typerefs) directly, in nested required records, in included records, two include levels deep and only-in-include; for every record every subset of defaulted positions is supplied or omitted in reference documents read by the JSON, ROR2 and untyped readers of both generations and by the generated constructor, and every ordered pair of independently obtained instances is checked for shared default storage.",
